@@ -8,6 +8,11 @@ ALL = ["C%02d" % i for i in range(1, 21)]
 
 # pid -> (category, level text, level note, technique, design_ref)
 CHECKS = {
+ "C01": ("proof",
+         "The transition tables of pred_fsm.go are translated to Coq on every run (gofsm2v over go/ast); a reflective, certificate-based automaton-equivalence checker (soundness proved once, Base/Dfa.v) shows by vm_compute that every registered table, composed with the hand-modelled report/reset logic of processFsmStateChange, is equivalent to a monitor that is proved (induction on the trace) to decide the modality's plain meaning — hence for observation sequences of every length: disappointment iff the meaning is violated, no crash, satisfaction at the end of a period without disappointment, and exactly the ten names are accepted. The hand-modelled glue is tied by running the real parseAuditWhen/startOfAuditPeriod/processFsmStateChange on all traces up to a length bound plus random long ones and raw label sequences, compared in Coq with the model and with the meaning oracle. A failing obligation triggers a shortest-counterexample search over the product automaton, replayed on the real code.",
+         "Trusted: Coq kernel+VM, the translator (refuses unknown constructs), the harness/hook. Modelled by hand: classification of states by name, reset after bad, panics on unknown labels/indices. Reading of 'eventually always' as false^i true^(j+1).",
+         "Rocq/Coq proof: translator + reflective DFA equivalence (vm_compute) + monitor = meaning by induction; differential correspondence on the glue",
+         "DESIGN.md section 6, C01"),
  "C18": ("proof",
          "Coq theorems over an executable model of ToUnixMicros/FromUnixMicros (nearest half-up for every instant, monotone, round trip; by lia) and of the Timer wrapper as an LTS with inner timer, channel slot, Read flag and pool (invariant for every label sequence: no operation blocks, at most one receive per Reset and not early, nothing after Stop, refinement to an abstract one-shot timer). Tied to the code on every run by a correspondence check: the real functions run on ~18k boundary/random instants and ~130 Timer op sequences, evaluated against the model and the plain-meaning oracle inside Coq (vm_compute).",
          "Trusted: Coq kernel+VM, harness and Coq-term printer; time.Time.Round/Unix and time.Timer semantics are modelled (exercised by the cases, not verified); int64 overflow outside the model; Timer used from one goroutine as its contract says.",
